@@ -195,7 +195,8 @@ def percentile(a, q, method="linear", internal_method="default", **kwargs):
         token = tokenize(a, q, method)
 
         dtype = a.dtype
-        if np.issubdtype(dtype, np.integer):
+        if np.issubdtype(dtype, np.integer) and method in ("linear", "midpoint"):
+            # only the interpolating methods leave the input dtype
             dtype = (array_safe([], dtype=dtype, like=meta_from_array(a)) / 0.5).dtype
         meta = meta_from_array(a, dtype=dtype)
 
